@@ -249,7 +249,7 @@ def constraint_and_subset(S):
     S.claim_eq('separation', sc.scatterers[1].center[2], 3.0 + vsep)
     # pixel subset: selection commutes with the forward model, likelihood over the 3 selected pixels
     sub_post = model.lnposterior(pars, data, pixels=3)
-    S.claim('choice_args', R.calls and R.calls[-1] == (4, 3, False))
+    S.claim('choice_args', bool(R.calls) and R.calls[-1] == (4, 3, False))
     full = _flatvals(model.forward(pars, data)).reshape(-1)
     sel = [3, 0, 2]
     S.claim_eq('subset_posterior', sub_post,
